@@ -70,6 +70,9 @@ class ShardResult:
         return d
 
 
+ACTIVE_KNOWN = set()  # ids of the listed known findings of the property being run (set per process; empty in replays)
+
+
 def run_one(module, case, res, known_preds, case_timeout, reraise=True):
     """Run check_case on one case with watchdog + bookkeeping.  Returns 'ok'|'discard'|'violation'|..."""
     res.evaluations += 1
@@ -92,6 +95,10 @@ def run_one(module, case, res, known_preds, case_timeout, reraise=True):
         return "discard"
     except Violation as v:
         signal.alarm(0)
+        if v.detail.get("known") in ACTIVE_KNOWN:
+            # a listed known finding, identified by the check itself: counted, and the search goes on
+            res.diverted[v.detail["known"]] += 1
+            return "diverted"
         kind = str(v.detail.get("kind", v.msg.split(":")[0]))[:80]
         sz = size_of(case)
         cur = res.violations.get(kind)
@@ -160,6 +167,7 @@ def shard_main(args):
     sys.setrecursionlimit(20000)
     t0 = time.time()
     res = ShardResult()
+    ACTIVE_KNOWN.update(known_ids)
     try:
         module = importlib.import_module("vf.props." + pid.lower())
         known_preds = {k: v for k, v in getattr(module, "KNOWN", {}).items() if k in known_ids}
